@@ -78,6 +78,10 @@ func runC01(c *ev.Ctx) {
 	lens = append(lens, seededLens(r, 20, 100, 33333)...)
 	reps := 5
 	works := famWorks(gen.Mix(seed, 1), gen.Families, lens, reps, c01Specs(r))
+	// two lengths just above 2^22 (parallel or blocked paths often start there), odd and even
+	for _, n := range []int{1<<22 + 9, 1<<22 + 40} {
+		works = append(works, seqWork{Seq: gen.Seq{Fam: "uniform", N: n, Seed: gen.Mix(seed, 5, uint64(n))}, Specs: c01Specs(r)(n)})
+	}
 	if c.Thorough() {
 		works = append(works, famWorks(gen.Mix(seed, 2), gen.Families, thoroughLens, 1, c01Specs(r))...)
 		works = append(works, famWorks(gen.Mix(seed, 11), gen.Families, lens, 60, c01Specs(r))...)
@@ -279,6 +283,9 @@ func runC02(c *ev.Ctx) {
 	lens := append([]int{}, quickLens...)
 	lens = append(lens, seededLens(r, 40, 100, 33333)...)
 	works := famWorks(gen.Mix(seed, 1), gen.Families, lens, 8, all)
+	for _, n := range []int{1<<22 + 9, 1<<22 + 40} {
+		works = append(works, seqWork{Seq: gen.Seq{Fam: "uniform", N: n, Seed: gen.Mix(seed, 5, uint64(n))}, Specs: all(n)})
+	}
 	// runs-total at tiny n
 	for n := 1; n <= 40; n++ {
 		for k := 0; k < 4; k++ {
@@ -409,6 +416,22 @@ func runC03(c *ev.Ctx) {
 	tops := []int{1 << 16, 1 << 20, 2 << 20}
 	if c.Thorough() {
 		tops = append(tops, 1<<17, 1<<18, 1<<19, 3<<20, 1<<22)
+	}
+	// extremes reached within a bit or two of a 64-bit word boundary, both directions, both modes
+	for _, n := range []int{1024, 8000, 20000} {
+		for _, k := range []int{1, 2, 32, 62, 63} {
+			for o := 0; o < 4; o++ {
+				works = append(works, seqWork{Seq: gen.Seq{Fam: "cusumword", N: n, A: k, B: o, Seed: gen.Mix(seed, 33, uint64(n), uint64(k), uint64(o))}, Specs: all(n), Degenerate: true})
+			}
+		}
+	}
+	if !c.Thorough() {
+		// a few lengths just above 2^22 in the quick tier as well (parallel paths often start at 2^22 positions)
+		for _, j := range []int{1, 9, 33, 40} {
+			n := 1<<22 + j
+			works = append(works, seqWork{Seq: gen.Seq{Fam: "uniform", N: n, Seed: gen.Mix(seed, 5, uint64(n))}, Specs: all(n)})
+			c.Count("power_of_two_neighbourhood_lengths", 1)
+		}
 	}
 	for _, base := range tops {
 		for j := -1; j <= 34; j++ {
